@@ -215,7 +215,7 @@ func applyEvil(r *Run, o *stubOrigin, kind string) {
 			}
 		}
 		// re-render
-		st.blob = nil
+		st.blobs = map[string][]byte{}
 		seq := uint32(1)
 		if st.container == "fmp4" {
 			st.init = renderInit(st)
@@ -240,9 +240,9 @@ func applyEvil(r *Run, o *stubOrigin, kind string) {
 		}
 		for _, sg := range st.segs {
 			if sg.hasBR {
-				sg.brStart = uint64(len(st.blob))
+				sg.brStart = uint64(len(st.blobs[sg.uri]))
 				sg.brLen = uint64(len(sg.body))
-				st.blob = append(st.blob, sg.body...)
+				st.blobs[sg.uri] = append(st.blobs[sg.uri], sg.body...)
 			}
 		}
 	}
@@ -475,6 +475,8 @@ func scC13(spot bool) Scenario {
 			syncWait()
 			w.net.pump()
 		}
+		r.SettleHolds()
+		syncWait()
 		if !w.waitSeen {
 			r.Fail("close", "not-honoured", "after Close, Wait yielded nothing (evil=%s)", evil)
 		} else if gs := clientGoroutines(); len(gs) > 0 {
